@@ -16,7 +16,7 @@ T = {
  'C08-m2': ('C08', 'tie-break by id dropped in candidate ordering: needs > 100 candidates with a stake tie across the cut', 'C08 process-divergence (after equal stakes were added to the crowded family); first run missed'),
  'C09-m1': ('C09', 'absent mark not persisted (inverted dirty condition): needs an absence, a restart before anything rewrites the validator list, then more absences', 'C09 export-differs validators/absent_times'),
  'C09-m2': ('C09', 'recalculated bip value of an unchanged custom-coin stake not marked dirty: restart before the next payout pays from stale value', 'C09 responses-differ-after-restart'),
- 'C10-m1': ('C10', 'height written before hash in Commit: crash between the two writes reports (h, hash of h-1)', 'C10 later-block-differs / wrong hash positions'),
+ 'C10-m1': ('C10', 'height record written apart from the other records of a commit: crash between the two writes reports (h, hash of h-1). (Ported after fix f72b9d5 made the commit one batch: the author swapped two separate writes - patch.orig.diff; the port lets SetLastHeight bypass the batch, same effect, same demonstration)', 'C10 later-block-differs / wrong hash positions'),
  'C10-m2': ('C10', 'pruning off by one with keep_last_states=1: crash after pruning before the app height advances cannot reload', 'C10 replayed-block-differs (restart cannot load the pruned version)'),
  'C11-m1': ('C11', 'token version dropped at import: needs a re-created token before the export', 'C11 reexport-differs /coins'),
  'C11-m2': ('C11', 'unfunded, unused multisig wallet dropped from the export', 'C11 import-loses-state/msig (after the accessor-level comparison was added); first run missed'),
@@ -41,7 +41,7 @@ T = {
  'C13-m2': ('C13', 'AddLiquidity worth less than one pool token in a pool created with unequal volumes', 'C13 liquidity-minted-for-less'),
  'C14-m1': ('C14', 'partial fill and closing (cancel / expiry) of the same order inside ONE block refunds the on-disk amount', 'C14 refund-mismatch; also C01'),
  'C14-m2': ('C14', 'two uncommitted orders whose prices differ by less than 2^-53 relative, higher id with the better exact price', 'C14 priority-violated'),
- 'C15-m1': ('C15', 'SellSwapPool over 3..5 coins with the fee pool as a LATER hop and the minimum inside a 0.03% window', 'C15 limit/pool-sell (across-the-boundary trades on probed outcomes)'),
+ 'C15-m1': ('C15', 'SellSwapPool over 3..5 coins with the fee pool as a LATER hop and the minimum inside a 0.03% window (context line re-based after fix c93b8c2; patch.orig.diff is the author\'s)', 'C15 limit/pool-sell (across-the-boundary trades on probed outcomes)'),
  'C15-m2': ('C15', 'fee conversion filled from an order at the pool price and the same pool traded by the route: the simulated fee conversion forgets the orders it consumed. (The author wrote it for the buy branch of AddLastSwapStepWithOrders; after fix c93b8c2 the swaps use the sell branch, so the identical slip was moved to that branch - patch.orig.diff is the original.)', 'C15 limit/pool-buy and pool-sell, off-by-more (after the aimed fee-pool scenario was added; that scenario also exposed the genuine defect fixed by c93b8c2); first runs missed'),
  'C20-m1': ('C20', 'halt decision uses the presence of the previous block: needs a validator whose presence differs between H-1 and H', 'C20 halt-decision (seed 2 of 2)'),
  'C20-m2': ('C20', 'duplicate update-vote check only in the process cache: vote, restart, same candidate votes again', 'C20 duplicate-vote-accepted (after restarts and late duplicate votes were added); first run missed'),
